@@ -54,6 +54,9 @@ class PWS:
         self.timeout = None
         self.fut = None
         self.waiter = None
+        self.nwrite = 0           # writes attempted by the client on this socket
+        self.fail_send_at = None  # set by the scenario: the write with this index fails (connection reset) ...
+        self.fail_send_persist = False   # ... and every later one too
         self.stall = False        # set by the scenario: the peer is not reading, so the client's writes block
         self.stalled = 0          # writers currently blocked in a write
         self.stall_futs = []
@@ -133,6 +136,10 @@ class FakeAioWS:
                 self.p.stalled -= 1
         if self.closed or self.p.closed_by_server:
             raise ConnectionResetError('Cannot write to closing transport')
+        k = self.p.nwrite
+        self.p.nwrite = k + 1
+        if self.p.fail_send_at is not None and (k == self.p.fail_send_at or (k > self.p.fail_send_at and self.p.fail_send_persist)):
+            raise ConnectionResetError(104, 'Connection reset by peer')
         self.p.sent.append((self.w.clock.now, self.w.nstep, kind, data))
 
     async def send_str(self, data):
@@ -546,6 +553,10 @@ class FakeSyncWS:
                 self.p.stalled -= 1
         if not self.connected or self.p.closed_by_server:
             raise WSClosed('socket is already closed.')
+        k = self.p.nwrite
+        self.p.nwrite = k + 1
+        if self.p.fail_send_at is not None and (k == self.p.fail_send_at or (k > self.p.fail_send_at and self.p.fail_send_persist)):
+            raise OSError(104, 'Connection reset by peer')
         self.p.sent.append((self.w.clock.now, self.w.nstep, kind, data))
 
     def send(self, data):
